@@ -113,6 +113,9 @@ func (v val) isZero() bool {
 	return false
 }
 
+// msgpackDoc: magic prefix + {"n": 5, "s": "ab", "f": true} - a body PatchTreasures accepts
+var msgpackDoc = []byte{0xC7, 0x00, 0x83, 0xA1, 'n', 0x05, 0xA1, 's', 0xA2, 'a', 'b', 0xA1, 'f', 0xC3}
+
 func manyU32(n int) []uint32 {
 	l := make([]uint32, n)
 	for i := range l {
@@ -171,7 +174,7 @@ func valuesOf(t int) []val {
 	case 12:
 		return []val{{T: 12, B: false}, {T: 12, B: true}}
 	case 13:
-		return []val{{T: 13, S: []byte{}}, {T: 13, S: []byte{0}}, {T: 13, S: []byte{0xC7, 0x00, 0x80}}, {T: 13, S: []byte{1, 2, 3, 0, 255}}, {T: 13, S: bytes.Repeat([]byte{0, 200}, 150)}}
+		return []val{{T: 13, S: []byte{}}, {T: 13, S: []byte{0}}, {T: 13, S: []byte{0xC7, 0x00, 0x80}}, {T: 13, S: []byte{1, 2, 3, 0, 255}}, {T: 13, S: bytes.Repeat([]byte{0, 200}, 150)}, {T: 13, S: msgpackDoc}}
 	case 14:
 		return []val{{T: 14, L: []uint32{}}, {T: 14, L: []uint32{0}}, {T: 14, L: []uint32{5, 1, math.MaxUint32}}, {T: 14, L: manyU32(70)}}
 	}
@@ -675,6 +678,10 @@ func genPlan(rng *common.Rng, idx int, tier string) *plan {
 		types[k] = rng.Intn(14) // 0..13
 	}
 	types[nKeys-1] = 14
+	types[3] = 13 // key 3 (and key 4 in half of the cases): a ByteArray key that is patched often
+	if rng.Chance(50) {
+		types[4] = 13
+	}
 	pick := func(t int) val {
 		vs := valuesOf(t)
 		if rng.Chance(45) {
@@ -689,8 +696,13 @@ func genPlan(rng *common.Rng, idx int, tier string) *plan {
 			return hop{Kind: "push", K: k, V: pick(14)}
 		case t >= 1 && t <= 10 && rng.Chance(35):
 			return hop{Kind: "inc", K: k, V: val{T: t}, By: int64(rng.Intn(3)) - 1, Meta: rng.Intn(2)}
-		case t == 13 && rng.Chance(30):
-			return hop{Kind: "patch", K: k, Meta: rng.Intn(2)}
+		case t == 13 && rng.Chance(55):
+			// By selects the ops: 0 none, 1 INC n (same size), 2 SET s to another 2-byte string (same
+			// size), 3 SET s to a longer string, 4 SET f (flag flip, same size), 5 INC + SET together;
+			// Meta: 0 none (nothing stamped), 1 stamps, 2 only ClearExpiredAt, 3 only SetUpdatedBy
+			return hop{Kind: "patch", K: k, Meta: []int{0, 0, 0, 1, 2, 3}[rng.Intn(6)], By: int64(rng.Intn(6))}
+		case t == 13 && rng.Chance(50):
+			return hop{Kind: "set", K: k, V: val{T: 13, S: msgpackDoc}, Meta: rng.Intn(4)}
 		}
 		return hop{Kind: "set", K: k, V: pick(t), Meta: rng.Intn(4)}
 	}
@@ -913,7 +925,30 @@ func doOp(a *c30.API, p *plan, o hop) error {
 			by := "dave"
 			meta = &hydrapb.PatchMeta{SetUpdatedAt: true, SetUpdatedBy: &by, SetCreatedAt: true, SetExpiredAt: c30.TS(-3600, 0)}
 		}
-		_, err = a.Patch(p.swamp, key, true, meta, nil)
+		switch o.Meta {
+		case 2:
+			meta = &hydrapb.PatchMeta{ClearExpiredAt: true}
+		case 3:
+			by := fmt.Sprintf("p%d", i)
+			meta = &hydrapb.PatchMeta{SetUpdatedBy: &by}
+		}
+		str := func(x string) []byte { return append([]byte{0xA0 | byte(len(x))}, x...) }
+		two := []string{"cd", "ef", "gh"}[i%3]
+		flag := []byte{0xC2 + byte(i%2)}
+		var ops []*hydrapb.PatchOp
+		switch o.By {
+		case 1:
+			ops = []*hydrapb.PatchOp{{Op: hydrapb.PatchOp_INC, Path: "n", Value: []byte{0x01}}}
+		case 2:
+			ops = []*hydrapb.PatchOp{{Op: hydrapb.PatchOp_SET, Path: "s", Value: str(two)}}
+		case 3:
+			ops = []*hydrapb.PatchOp{{Op: hydrapb.PatchOp_SET, Path: "s", Value: str(fmt.Sprintf("longer-%d", i))}}
+		case 4:
+			ops = []*hydrapb.PatchOp{{Op: hydrapb.PatchOp_SET, Path: "f", Value: flag}}
+		case 5:
+			ops = []*hydrapb.PatchOp{{Op: hydrapb.PatchOp_INC, Path: "n", Value: []byte{0x01}}, {Op: hydrapb.PatchOp_SET, Path: "s", Value: str(two)}}
+		}
+		_, err = a.Patch(p.swamp, key, true, meta, ops) // per-key outcomes (TYPE_MISMATCH on a non-msgpack body, ...) are fine: the observed record decides
 	case "delete":
 		err = a.Delete(p.swamp, []string{key})
 	case "deldup":
